@@ -136,13 +136,13 @@ def gen_unit_cases(r, n, tc):
                 cases.append(("PC 1 %s %s" % (sch, G.hx(raw)), meta))
             else:
                 cases.append(("PF 1 %s %s" % (sch, G.hx(c)), meta))
-        elif m < 0.915:
+        elif m < 0.90:
             sch, c, tag = G.gen_nested_case(r)
             cases.append(("NP 1 %s %s" % (sch, G.hx(c)), {"kind": "NP", "tag": tag, "conf": c}))
         elif m < 0.94:
             # index files, to_lower, check_ascii, repeated-keyword values
             mm = r.random()
-            if mm < 0.6:
+            if mm < 0.5:
                 groups, names = [], r.sample(["g", "group1", "Protein", "C-alpha", "a_b", "x1", "h"], r.randint(1, 4))
                 for nm_ in names:
                     groups.append((nm_, [r.randint(1, 99999) for _ in range(r.randint(0, 6))]))
@@ -151,7 +151,7 @@ def gen_unit_cases(r, n, tc):
                 tag = "valid"
                 k = r.random()
                 if k < 0.5:
-                    tag = r.choice(["text-for-number", "zero", "negative", "glued-header", "no-bracket", "bytes"])
+                    tag = r.choice(["text-for-number", "zero", "negative", "glued-header", "no-bracket", "bytes", "redefined"])
                     toks = txt.split()
                     nums = [i for i, t in enumerate(toks) if t.isdigit()]
                     if tag in ("text-for-number", "zero", "negative") and nums:
@@ -165,18 +165,20 @@ def gen_unit_cases(r, n, tc):
                         txt = re.sub(rb"\s+\]", b"]", txt, count=1)
                     elif tag == "no-bracket":
                         txt = txt.replace(b"]", b"", 1)
+                    elif tag == "redefined":
+                        txt = txt + b" [ " + groups[0][0].encode() + b" ] 100001 100002 "
                     elif tag == "bytes":
                         txt = G.mutate_bytes(r, txt)
                     else:
                         tag = "valid"
                 cases.append(("IX %s" % G.hx(txt), {"kind": "IX", "tag": tag, "groups": groups, "text": txt}))
-            elif mm < 0.75:
+            elif mm < 0.6:
                 t = bytes(r.randint(0, 255) for _ in range(r.randint(0, 24)))
                 cases.append(("TL %s" % G.hx(t), {"kind": "TL", "text": t}))
-            elif mm < 0.85:
+            elif mm < 0.65:
                 t = G.gen_malformed(r, keys) + bytes(r.randint(128, 255) for _ in range(r.randint(0, 3)))
                 cases.append(("CA %s" % G.hx(t), {"kind": "CA"}))
-            elif mm < 0.92:
+            elif mm < 0.75:
                 sc = G.gen_struct_conf(r, keys[:6], r.randint(2, 7))
                 kw = r.choice(G.first_tokens(sc) or [b"width"])
                 cases.append(("KM %s %s" % (G.hx(sc), G.hx(G.rcase(r, kw))), {"kind": "KM"}))
@@ -1005,6 +1007,9 @@ def check(run):
         for l in open(cp):
             l = l.strip()
             if l and not l.startswith("#"):
+                if l.split()[0] in ("KV", "IX"):
+                    cases.append((l, {"kind": l.split()[0], "tag": "corpus", "calls": [("s", b"width")], "groups": [], "text": b""}))
+                    continue
                 if l.split()[0] in ("PS", "MS"):
                     cases.append((l, {"kind": l.split()[0], "tags": ["corpus"], "schema": l.split()[2], "confs": [G.unhx(x) for x in l.split()[3].split("|")]}))
                     continue
@@ -1078,7 +1083,7 @@ def check(run):
                 exp = "ok " + ";".join("%s=%s" % (G.hx(g), ",".join(map(str, ns))) for g, ns in meta["groups"])
                 if io.strip() != exp.strip():
                     bad = ("index:valid-file-misread", "the index file %r is read as %s, it defines %s" % (meta["text"], io, meta["groups"]))
-            elif meta["tag"] in ("text-for-number", "zero", "negative", "glued-header", "no-bracket") and io.startswith("ok"):
+            elif meta["tag"] in ("text-for-number", "zero", "negative", "glued-header", "no-bracket", "redefined") and io.startswith("ok"):
                 bad = ("strict:index:%s-accepted" % meta["tag"], "the index file %r (%s) is accepted: %s" % (meta["text"], meta["tag"], io))
         elif kind == "KV":
             # a required keyword missing from the text of the FIRST call on a fresh object must be an error
